@@ -608,7 +608,12 @@ func (dsc *dataStoreCommand) bitfieldWrite(keyName string, ops []*bitfieldOp) (o
 			// detect underflow and overflow
 			var outOfBounds bool
 			if op.signed {
-				outOfBounds = isSignedSumOverflow(n, op.value, bits)
+				if op.op == BF_INCRBY {
+					outOfBounds = isSignedSumOverflow(n, op.value, bits)
+				} else {
+					// SET: the value itself has to fit the type, whatever the field held before
+					outOfBounds = isSignedSumOverflow(0, op.value, bits)
+				}
 			} else {
 				// unsigned underflows when it goes negative
 				outOfBounds = newValue < 0 || isUnsignedOverflow(newValue, bits)
